@@ -36,6 +36,12 @@ func defFor(check string) *checkDef {
 			rule: "as C02 with the whole torn-variant set, plus crash / recover / continue / crash: a seeded subset of the images of each run (biased to torn snapshot files and to instants just after snapshot persists and removals) is continued by a further simulated run with a fresh writer and more workload, whose own trace is enumerated again (depth 2, thorough 3). Oracle per image: the opening process neither dies nor panics, OpenReader/OpenWriter succeed whenever a snapshot had been completed, recovered content = exactly one abstract state (prefix of the applied batches), the recovered writer accepts a batch, reads it back, closes, and the batch survives a reopen",
 			assume: commonAssume,
 			probes: []string{"same-epoch-rewrite-after-recovery", "file-merge", "in-memory-merge"}}
+	case "C11":
+		return &checkDef{property: "C11", level: "exploration",
+			budget: map[string]tierCfg{"quick": {2500, 75}, "thorough": {100000, 1500}},
+			rule: "one simulated run per seed on the file-system directory with retention count N in {1,2,3}, 1-3 client actors that also hold Readers (from the writer and from the live directory via OpenReader) open and closed at scheduled instants and attempt a second OpenWriter; after every window containing a directory mutation the real directory is scanned and every snapshot file parsed (exported decoder + CRC): (i) at least min(N, commits) snapshots are loadable with all their segment files, (ii) no segment file that the writer's root or an open reader refers to is missing, and no successful Remove named one, (iii) held readers re-read equal to their baseline, (iv) every closer returned by Load is closed exactly once and no descriptor under the directory is open after the last Close (os seam), (v) OpenWriter right after Close succeeds and shows the abstract index, (vi) a second OpenWriter on the locked directory is refused while the first keeps satisfying the model. distinct = distinct release sequences; non-trivial = background step interleaved between client operations",
+			assume: commonAssume,
+			probes: []string{"dir-invariant-evaluations", "segment-removals-checked", "remove-refused-while-reader-open", "second-writer-refused", "live-openreader", "reopened-writer-after-close", "descriptors-all-closed"}}
 	case "C12":
 		return &checkDef{property: "C12", level: "fault_enumeration", timeout: 900 * time.Second,
 			variants: []string{"C12big", "C12", "C12", "C12", "C12", "C12", "C12", "C12"},
